@@ -352,7 +352,7 @@ fn main() {
     let mut ctx = Ctx::from_args("C28");
     if !ctx.run_fixed(run_case) {
         let mut rng = ctx.rng();
-        for _ in 0..ctx.size(150, 1_500) {
+        for _ in 0..ctx.size(150, 1_000) {
             let input = gen_case(&mut rng);
             let o = run_case(&input);
             ctx.record(&input, o);
